@@ -259,7 +259,10 @@ impl Angle {
     /// ```
     #[must_use]
     pub fn wrap(self, min: Self, max: Self) -> Self {
-        Self(min.0 + f32::rem_euclid(self.0 - min.0, max.0 - min.0))
+        let a = min.0 + f32::rem_euclid(self.0 - min.0, max.0 - min.0);
+        // Rounding can carry the sum up to or past `max`,
+        // which is the same angle as `min`
+        Self(if a >= max.0 { min.0 } else { a })
     }
 }
 
